@@ -63,6 +63,8 @@ pub fn group_solver(
     entries: &[&crate::resources::ResourceAllocRequest],
     weights: &[CouplingWeightItem],
 ) -> Option<(SelectedGroups, f64)> {
+    #[cfg(it4innovations_hyperqueue_verif)]
+    crate::verif::alloc::record_solver_begin();
     let mut solver = LpSolver::new(false);
     let vars: SmallVec<[SmallVec<_>; FAST_MAX_COUPLED_RESOURCES]> = entries
         .iter()
@@ -140,6 +142,19 @@ pub fn group_solver(
         );
     }
     let (solution, objective_value): (_, _) = solver.solve()?;
+    #[cfg(it4innovations_hyperqueue_verif)]
+    crate::verif::alloc::record_solver_result(
+        vars.iter()
+            .map(|var_group| {
+                var_group
+                    .iter()
+                    .enumerate()
+                    .filter_map(|(i, v)| (solution.get_value(*v) > 0.5).then_some(i))
+                    .collect()
+            })
+            .collect(),
+        objective_value,
+    );
     Some((
         vars.iter()
             .map(|var_group| {
